@@ -76,6 +76,8 @@ type zzUDPIO struct {
 	sendErr  bool
 	writeErr bool
 	curSess  uint32
+	dialGate chan struct{} // when set, a dial takes until a token arrives (slow DNS, slow hook)
+	dialing  int
 }
 
 func (io *zzUDPIO) ReceiveMessage() (*protocol.UDPMessage, error) {
@@ -104,6 +106,11 @@ func (io *zzUDPIO) Hook(data []byte, reqAddr *string) error {
 // the outbound is consistent: dialling a destination fails exactly when the policy rejects it
 func (io *zzUDPIO) UDP(reqAddr string) (UDPConn, error) {
 	io.dials = append(io.dials, reqAddr)
+	if io.dialGate != nil {
+		io.dialing++
+		<-io.dialGate
+		io.dialing--
+	}
 	if io.dialErr || !io.allow[reqAddr] {
 		return nil, errors.New("rejected by policy")
 	}
